@@ -134,6 +134,10 @@ inductive CBody where
   | workload (busy : List BusyRef) (intervals : List ((Int × Int) × Int)) (kind : CountKind)
   | nonDelay (busy : List BusyRef)
   | distance (busy : List BusyRef) (d : Int) (intervals : Option (List (Int × Int))) (mode : CountKind)
+  /-- one entry per (unit) worker: its busy intervals with the task each belongs to -/
+  | interrupted (ws : List (List (BusyRef × Task))) (intervals : List (Int × Int))
+  | periodicallyUnavailable (busy : List BusyRef) (intervals : List (Int × Int)) (period start offset : Int)
+      (end_ : Option Int)
   | sameWorkers (s1 s2 : Select)
   | distinctWorkers (s1 s2 : Select)
   | unloadBuffer (t : Task) (b : String) (q : Int)
